@@ -293,6 +293,7 @@ def explore(fn, max_paths=400):
     ('ok', value) | ('exc', exception) | ('infeasible', None)."""
     results = []
     CTX.pending = [[]]
+    CTX.path_events = []
     n = 0
     while CTX.pending:
         prefix = CTX.pending.pop()
@@ -303,12 +304,14 @@ def explore(fn, max_paths=400):
         try:
             v = fn()
             results.append((list(CTX.trace), "ok", v, list(CTX.pc)))
+            CTX.path_events.append((list(CTX.trace), list(CTX.events), list(CTX.pc)))
         except Infeasible:
             results.append((list(CTX.trace), "infeasible", None, list(CTX.pc)))
         except Outside:
             raise
         except Exception as e:  # exception raised by the code under verification
             results.append((list(CTX.trace), "exc", e, list(CTX.pc)))
+            CTX.path_events.append((list(CTX.trace), list(CTX.events), list(CTX.pc)))
     return results
 
 
